@@ -1,5 +1,6 @@
 import MosnVerif.Drive.Util
 import MosnVerif.Model.FilterSpec
+import MosnVerif.Drive.C14Mx
 /-!
 Driver of C14.  Case line (harness/c14):
 
@@ -226,6 +227,7 @@ def chain (recv send : String) (envToks impl : List String) : String :=
 def run (caseToks impl : List String) : String :=
   match caseToks with
   | "ch" :: recv :: send :: envToks => chain recv send envToks impl
+  | "mx" :: toks => C14Mx.runMx toks impl
   | _ => "E E unknown-kind"
 
 end MosnVerif.Drive.C14
